@@ -2685,3 +2685,123 @@ Proof.
     destruct e; try discriminate. reflexivity.
   - subst o1. destruct Hin as [H|[H|[]]]; inversion H. now right.
 Qed.
+
+(* ---------------------------------------------------------------------------------------------------------- *)
+(* a reply that arrives while the API call is still inside transport.send()                                   *)
+(* ---------------------------------------------------------------------------------------------------------- *)
+Lemma find_req_put : forall r l, find_req (r_kind r) (r_id r) (put_req r l) = Some r.
+Proof.
+  induction l as [|x t IH]; simpl.
+  - unfold req_is. rewrite kind_eqb_refl, N.eqb_refl. reflexivity.
+  - destruct (req_is (r_kind r) (r_id r) x) eqn:E; simpl.
+    + unfold req_is at 1. rewrite kind_eqb_refl, N.eqb_refl. reflexivity.
+    + rewrite E. exact IH.
+Qed.
+
+(* the request an API call records (kind, CallRequest.options, target), when it is one that expects a reply *)
+Definition api_request (s : sess) (a : op) : option (kind * option call_opts * N) :=
+  match a with
+  | ACall uri _ _ o => Some (KCall, o, uri)
+  | APublish uri _ _ o => if po_wants_ack o then Some (KPublish, None, uri) else None
+  | ASubscribe uri _ => Some (KSubscribe, None, uri)
+  | ARegister uri _ => Some (KRegister, None, uri)
+  | AUnsubscribe h =>
+      match sub_id_of s h with
+      | Some i => match assoc i (subs s) with Some [h'] => if h' =? h then Some (KUnsubscribe, None, i) else None | _ => None end
+      | None => None
+      end
+  | AUnregister h =>
+      match reg_id_of s h with
+      | Some i => match assoc i (regs s) with Some h' => if h' =? h then Some (KUnregister, None, i) else None | None => None end
+      | None => None
+      end
+  | _ => None
+  end.
+
+(* Every API path records its request BEFORE it hands the message to the transport; therefore a reply that the
+   transport delivers re-entrantly from inside send() -- i.e. the history [a; r] with nothing in between, the API call
+   returning only afterwards -- finds the record and completes the future the call is about to return, with the
+   reply's content; the call itself returns that future and does not raise. *)
+Theorem reply_during_send : forall fl cfg s a r v k co t c,
+  transport s = true -> topen s = true -> sid s = Some v -> is_done s (next_fut s) = false ->
+  api_request s a = Some (k, co, t) ->
+  reply_spec r = Some (k, idgen_next (next_id s), c) ->
+  match r with RRegistered _ g => assoc g (regs s) = None | _ => True end ->
+  let f := next_fut s in
+  let rq := mkreq k (idgen_next (next_id s)) f co t in
+  let '(s1, o1) := step fl cfg s a in
+  let '(s2, o2) := step fl cfg s1 r in
+  (exists m, o1 = [Sent m; ApiReturned (Some f)])
+  /\ pend s2 = remove_req k (idgen_next (next_id s)) (put_req rq (pend s))
+  /\ done s2 = done s ++ [(f, c rq)] /\ user_sees fl s1 s2 o2 f (c rq).
+Proof.
+  intros fl cfg s a r v k co t c Ht Ho Hs Hd Ha Hr Hwf. cbv zeta.
+  assert (Hgen : forall s1 o1, step fl cfg s a = (s1, o1) ->
+            transport s1 = true -> sid s1 = Some v -> regs s1 = regs s -> done s1 = done s ->
+            pend s1 = put_req (mkreq k (idgen_next (next_id s)) (next_fut s) co t) (pend s) ->
+            next_id s1 = idgen_next (next_id s) ->
+            (exists m, o1 = [Sent m; ApiReturned (Some (next_fut s))]) ->
+            let '(s2, o2) := step fl cfg s1 r in
+            (exists m, o1 = [Sent m; ApiReturned (Some (next_fut s))])
+            /\ pend s2 = remove_req k (idgen_next (next_id s)) (put_req (mkreq k (idgen_next (next_id s)) (next_fut s) co t) (pend s))
+            /\ done s2 = done s ++ [(next_fut s, c (mkreq k (idgen_next (next_id s)) (next_fut s) co t))]
+            /\ user_sees fl s1 s2 o2 (next_fut s) (c (mkreq k (idgen_next (next_id s)) (next_fut s) co t))).
+  { intros s1 o1 Hst Ht1 Hs1 Hrg Hdn Hp Hn Ho1.
+    set (rq := mkreq k (idgen_next (next_id s)) (next_fut s) co t) in *.
+    assert (Hf : find_req k (idgen_next (next_id s)) (pend s1) = Some rq).
+    { rewrite Hp. exact (find_req_put rq (pend s)). }
+    assert (Hd1 : is_done s1 (r_fut rq) = false) by (unfold is_done; rewrite Hdn; exact Hd).
+    assert (Hwf1 : reply_wellformed s1 r).
+    { destruct r; simpl; auto. rewrite Hrg. exact Hwf. }
+    pose proof (reply_completes fl cfg s1 r v k (idgen_next (next_id s)) c rq Ht1 Hs1 Hr Hf Hd1 Hwf1) as H.
+    destruct (step fl cfg s1 r) as [s2 o2]. destruct H as [P1 [P2 [P3 _]]].
+    split; [assumption|]. split; [rewrite P1, Hp; reflexivity|]. split; [rewrite P2, Hdn; reflexivity | exact P3]. }
+  destruct a; simpl in Ha; try discriminate.
+  - (* ACall *) inversion Ha; subst.
+    destruct (call_one_message fl cfg s t a kw co Ht Ho) as [s1 [Hst [Hp [Hn [_ [Hdn _]]]]]].
+    pose proof (Hgen s1 _ Hst) as G. rewrite Hst.
+    apply G; try assumption; try (eexists; reflexivity);
+      unfold step in Hst; rewrite Ht in Hst; simpl in Hst; unfold send in Hst; simpl in Hst; rewrite Ho in Hst; simpl in Hst;
+      inversion Hst; subst; simpl; assumption || reflexivity.
+  - (* APublish *) destruct (po_wants_ack o) eqn:Ew; [|discriminate]. inversion Ha; subst.
+    destruct (publish_ack_one_message fl cfg s t a kw o Ht Ho Ew) as [s1 [Hst [Hp [Hn [_ [Hdn _]]]]]].
+    pose proof (Hgen s1 _ Hst) as G. rewrite Hst.
+    apply G; try assumption; try (eexists; reflexivity);
+      unfold step in Hst; rewrite Ht in Hst; simpl in Hst; rewrite Ew in Hst; unfold send in Hst; simpl in Hst; rewrite Ho in Hst; simpl in Hst;
+      inversion Hst; subst; simpl; assumption || reflexivity.
+  - (* ASubscribe *) inversion Ha; subst.
+    destruct (subscribe_one_message fl cfg s t o Ht Ho) as [s1 [Hst [Hp [Hn [_ [Hdn _]]]]]].
+    pose proof (Hgen s1 _ Hst) as G. rewrite Hst.
+    apply G; try assumption; try (eexists; reflexivity);
+      unfold step in Hst; rewrite Ht in Hst; simpl in Hst; unfold send in Hst; simpl in Hst; rewrite Ho in Hst; simpl in Hst;
+      inversion Hst; subst; simpl; assumption || reflexivity.
+  - (* ARegister *) inversion Ha; subst.
+    destruct (register_one_message fl cfg s t o Ht Ho) as [s1 [Hst [Hp [Hn [_ [Hdn _]]]]]].
+    pose proof (Hgen s1 _ Hst) as G. rewrite Hst.
+    apply G; try assumption; try (eexists; reflexivity);
+      unfold step in Hst; rewrite Ht in Hst; simpl in Hst; unfold send in Hst; simpl in Hst; rewrite Ho in Hst; simpl in Hst;
+      inversion Hst; subst; simpl; assumption || reflexivity.
+  - (* AUnsubscribe *)
+    destruct (sub_id_of s h) as [i|] eqn:Ei; [|discriminate]. destruct (assoc i (subs s)) as [[|h' [|? ?]]|] eqn:Eas; try discriminate.
+    destruct (h' =? h) eqn:Eh; [|discriminate]. apply N.eqb_eq in Eh. subst h'. inversion Ha; subst.
+    destruct (unsubscribe_one_message fl cfg s h t Ht Ho Ei Eas) as [s1 [Hst [Hp [Hn [_ [Hdn _]]]]]].
+    pose proof (Hgen s1 _ Hst) as G. rewrite Hst.
+    apply G; try assumption; try (eexists; reflexivity);
+      unfold step in Hst; rewrite Ei, Eas in Hst; simpl in Hst; rewrite N.eqb_refl in Hst; simpl in Hst; rewrite Ht in Hst; simpl in Hst;
+      unfold send in Hst; simpl in Hst; rewrite Ho in Hst; simpl in Hst; inversion Hst; subst; simpl; assumption || reflexivity.
+  - (* AUnregister *)
+    destruct (reg_id_of s h) as [i|] eqn:Ei; [|discriminate]. destruct (assoc i (regs s)) as [h'|] eqn:Eas; [|discriminate].
+    destruct (h' =? h) eqn:Eh; [|discriminate]. apply N.eqb_eq in Eh. subst h'. inversion Ha; subst.
+    destruct (unregister_one_message fl cfg s h t Ht Ho Ei Eas) as [s1 [Hst [Hp [Hn [_ [Hdn _]]]]]].
+    pose proof (Hgen s1 _ Hst) as G. rewrite Hst.
+    apply G; try assumption; try (eexists; reflexivity);
+      unfold step in Hst; rewrite Ei, Eas in Hst; rewrite N.eqb_refl in Hst; simpl in Hst; rewrite Ht in Hst; simpl in Hst;
+      unfold send in Hst; simpl in Hst; rewrite Ho in Hst; simpl in Hst; inversion Hst; subst; simpl; assumption || reflexivity.
+Qed.
+
+(* the freshness hypothesis of [reply_during_send] holds in every reachable state *)
+Theorem fresh_future_not_done : forall fl cfg ops, is_done (final fl cfg ops) (next_fut (final fl cfg ops)) = false.
+Proof.
+  intros. apply is_done_false. intro Hin. apply in_map_iff in Hin. destruct Hin as [[g r] [Hg Hin]]. simpl in Hg. subst g.
+  pose proof (i_done_lt _ _ (reachable_Inv fl cfg ops) _ _ Hin) as Hlt. lia.
+Qed.
